@@ -128,6 +128,20 @@ pub fn textbook_literals(basis: &[u8], src: &[u8], bs: usize) -> u64 {
     lit + (src.len() - pos) as u64
 }
 
+/// a sink that takes at most `max` bytes per `write` call (what a pipe, a socket or a buffered file may do)
+struct ShortWriter { out: Vec<u8>, max: usize }
+impl std::io::Write for ShortWriter {
+    fn write(&mut self, b: &[u8]) -> std::io::Result<usize> { let n = b.len().min(self.max); self.out.extend_from_slice(&b[..n]); Ok(n) }
+    fn flush(&mut self) -> std::io::Result<()> { Ok(()) }
+}
+impl tokio::io::AsyncWrite for ShortWriter {
+    fn poll_write(mut self: std::pin::Pin<&mut Self>, _: &mut std::task::Context<'_>, b: &[u8]) -> std::task::Poll<std::io::Result<usize>> {
+        let n = b.len().min(self.max); self.out.extend_from_slice(&b[..n]); std::task::Poll::Ready(Ok(n))
+    }
+    fn poll_flush(self: std::pin::Pin<&mut Self>, _: &mut std::task::Context<'_>) -> std::task::Poll<std::io::Result<()>> { std::task::Poll::Ready(Ok(())) }
+    fn poll_shutdown(self: std::pin::Pin<&mut Self>, _: &mut std::task::Context<'_>) -> std::task::Poll<std::io::Result<()>> { std::task::Poll::Ready(Ok(())) }
+}
+
 fn apply_patch_sync(basis: &[u8], d: &Delta, verify: bool) -> (Result<(), CopiaError>, Vec<u8>) {
     let eng = copia::SyncBuilder::new().verify_checksum(verify).build();
     let mut out = Vec::new();
@@ -474,10 +488,42 @@ Model queries: `sig` and `delta` (exact op list, literal data compared by length
         let use_cli = i % (if thorough { 10 } else { 6 }) == 0;
         run_pair(w, &p, &rtm, if use_cli { cli.as_ref() } else { None }, true, prop == "C16");
     }
+    // SLIDE COLLISIONS: a basis block B whose bytes sum to n·(its last byte), preceded in the source by that byte: the window one
+    // position before B is a rotation of B with the SAME weak sum and different bytes (a false weak hit right before a true match);
+    // and its (+1,−2,+1) neighbours. Whatever the scan remembers about the rejected window must not cost the match that follows.
+    for (j, bs) in [3usize, 4, 7, 100, 512, 2048, 8192].into_iter().enumerate() {
+        for rep in 0..(if thorough { 12 } else { 3 }) {
+            let last = rng.range(60, 190) as u8;
+            let mut b: Vec<u8> = (0..bs).map(|_| (last as i64 + rng.range(0, 80) as i64 - 40) as u8).collect();
+            b[bs - 1] = last;
+            let mut diff: i64 = (bs as i64) * (last as i64) - b.iter().map(|x| *x as i64).sum::<i64>();
+            let mut q = 0usize;
+            while diff != 0 && q < 4 * bs {
+                let k = q % (bs - 1);
+                let cur = b[k] as i64;
+                let nv = (cur + diff).clamp(0, 255);
+                diff -= nv - cur;
+                b[k] = nv as u8;
+                q += 1;
+            }
+            let pre = rng.range(0, 3) as usize;
+            let mut basis: Vec<u8> = (0..pre).flat_map(|_| block_of(&mut rng, bs, 4)).collect();
+            basis.extend_from_slice(&b);
+            basis.extend(block_of(&mut rng, bs, 4));
+            let mut src = { let n_ = rng.range(0, 2 * bs as u64) as usize; rng.bytes(n_) };
+            src.push(last);
+            src.extend_from_slice(&b);
+            if rep % 2 == 0 { src.push(last); src.extend_from_slice(&b); }
+            src.extend({ let n_ = rng.range(0, bs as u64) as usize; rng.bytes(n_) });
+            let p = Pair { basis, src, bs, label: format!("slide-collision/bs{bs}/{rep}"), edit: None };
+            run_pair(w, &p, &rtm, if j >= 4 && rep == 0 { cli.as_ref() } else { None }, true, prop == "C16");
+            w.count("slide-collision");
+        }
+    }
     // tiny block sizes, EXHAUSTIVELY over short strings of a 3-letter alphabet (library level: every positive block size):
     // ends of input, sources shorter than a block, last bytes that occur nowhere in the basis, matches ending exactly at EOF
     {
-        let alpha = [b'a', b'b', b'x'];
+        let alpha = [b'a', b'b', b'c'];      // consecutive values: blocks like "cab" (sum = 3·last) slide into a window of equal weak sum
         let mut strs: Vec<Vec<u8>> = vec![vec![]];
         let mut frontier: Vec<Vec<u8>> = vec![vec![]];
         for _ in 0..4 {
@@ -486,7 +532,7 @@ Model queries: `sig` and `delta` (exact op list, literal data compared by length
             strs.extend(next.iter().cloned());
             frontier = next;
         }
-        let bases: [&[u8]; 4] = [b"abab", b"aab", b"a", b"abaab"];
+        let bases: [&[u8]; 6] = [b"abab", b"aab", b"a", b"abaab", b"cab", b"bcabca"];
         let mut k = 0u64;
         for bs in [1usize, 2, 3] {
             for basis in bases {
@@ -650,6 +696,36 @@ query = `patch` with full ops; answer = verdict + length and FNV hash of the byt
                 _ => {}
             }
         }
+        // the same patch into sinks that accept only a few bytes per write call: success still means the sink RECEIVED bytes
+        // hashing to the checksum (a `write` where a `write_all` is due hashes what it never delivered)
+        if verify && i % 3 == 0 {
+            let max = *rng.pick(&[1usize, 7, 300]);
+            let (b2c, dc) = (basis2.clone(), d.clone());
+            let gs = guarded(move || {
+                let mut sw = ShortWriter { out: Vec::new(), max };
+                let r = copia::SyncBuilder::new().verify_checksum(true).build().patch(Cursor::new(&b2c), &dc, &mut sw);
+                (r, sw.out)
+            });
+            if let Ok((r, o)) = &gs {
+                if r.is_ok() && StrongHash::compute(o).as_bytes() != d.checksum.as_bytes() {
+                    w.fail(l, "success-on-wrong-bytes", &format!("sync patch into a sink taking {max} bytes per write reported success but the sink holds {} bytes that do not hash to the checksum (case {i})", o.len()));
+                }
+            }
+            if async_hangs < 2 {
+                let (b2c, dc) = (basis2.clone(), d.clone());
+                let ga = crate::util::guarded_timeout(20, move || {
+                    let mut sw = ShortWriter { out: Vec::new(), max };
+                    let r = rt().block_on(AsyncCopiaSync::new().patch(Cursor::new(&b2c), &dc, &mut sw));
+                    (r, sw.out)
+                });
+                if let Ok((r, o)) = &ga {
+                    if r.is_ok() && StrongHash::compute(o).as_bytes() != d.checksum.as_bytes() {
+                        w.fail(l, "success-on-wrong-bytes", &format!("async patch into a sink taking {max} bytes per write reported success but the sink holds {} bytes that do not hash to the checksum (case {i})", o.len()));
+                    }
+                }
+            }
+            w.count("short-write-sinks");
+        }
         // CLI: `copia patch` must exit 0 only on a verified result, never by signal
         if let Some(c) = cli.as_ref() {
             if i % (if thorough { 6 } else { 5 }) == 0 {
@@ -670,6 +746,37 @@ query = `patch` with full ops; answer = verdict + length and FNV hash of the byt
                     }
                     Some(_) => {}
                 }
+            }
+        }
+    }
+    // `copia patch` on MiB-sized single ops (one merged copy, one literal): a file sink takes a bounded amount per write call
+    if let Some(c) = cli.as_ref() {
+        for k in 0..(if thorough { 6 } else { 3 }) {
+            let n_ = (3 << 20) + rng.below(100_000) as usize;
+            let basis = if k % 3 == 1 { Vec::new() } else { rng.bytes(n_) };
+            let mut src = if k % 3 == 1 { rng.bytes(n_) } else { basis.clone() };
+            src.extend(rng.bytes(21));
+            let sig = Signature::generate(&mut Cursor::new(&basis), 4096).expect("sig");
+            let d = CopiaSync::new().delta(Cursor::new(&src), &sig).expect("delta");
+            let mut basis2 = basis.clone();
+            if k % 3 == 2 && !basis2.is_empty() { let j = rng.below(basis2.len() as u64) as usize; basis2[j] ^= 1; }
+            let f = |n: &str| c.dir.join(n).to_string_lossy().into_owned();
+            std::fs::write(f("b"), &basis2).ok();
+            std::fs::write(f("d"), bincode::serialize(&d).expect("ser")).ok();
+            let _ = std::fs::remove_file(f("o"));
+            let (code, err) = c.run(&["patch", &f("b"), &f("d"), "-o", &f("o")]);
+            w.count("cli-patch-big");
+            let l = 0;      // implementation vs oracle only, no model line
+            match code {
+                Some(-999) => w.fail(l, "cli-patch-hang", "copia patch did not terminate within 30 s (MiB-sized op)"),
+                None => w.fail(l, "cli-patch-signal", &format!("copia patch died by signal: {err} (MiB-sized op)")),
+                Some(0) => {
+                    let o = std::fs::read(f("o")).unwrap_or_default();
+                    if StrongHash::compute(&o).as_bytes() != d.checksum.as_bytes() {
+                        w.fail(l, "cli-success-on-wrong-bytes", &format!("copia patch exit 0 but the {} output bytes do not hash to the delta checksum (source {} bytes, {} ops)", o.len(), src.len(), d.ops.len()));
+                    }
+                }
+                Some(_) => { if k % 3 != 2 { w.fail(l, "cli-valid-patch-refused", &format!("copia patch refused a valid (basis, delta): {err}")); } }
             }
         }
     }
